@@ -634,6 +634,14 @@ func runC04(t *testing.T, sched simrt.Schedule, prog c04Prog) ([]Violation, RunS
 			if abandon {
 				break
 			}
+			// a p2p topic whose two subscriptions are gone is deleted with its messages; subscribing again makes a
+			// new topic of the same name that starts empty
+			for tn := range led.T {
+				if len(tn) > 3 && tn[:3] == "p2p" && w.Disk.Topics[tn] == nil {
+					delete(led.T, tn)
+					simrt.Probe("c04.p2p_topic_deleted")
+				}
+			}
 			if a.Kind == "pub" {
 				record()
 			}
